@@ -108,7 +108,13 @@ struct Cx<'tcx> {
 impl<'tcx> Cx<'tcx> {
     fn path(&self, d: DefId) -> String {
         // crate-qualified path, stable across configurations
-        let p = self.tcx.def_path_str(d);
+        // workspace crates seen from another member: canonical definition path, not the re-export path
+        let kn = self.tcx.crate_name(d.krate);
+        let p = if !d.is_local() && kn.as_str() == "adf_bdd" {
+            rustc_middle::ty::print::with_no_visible_paths!(self.tcx.def_path_str(d))
+        } else {
+            self.tcx.def_path_str(d)
+        };
         if d.is_local() {
             format!("{}::{}", self.tcx.crate_name(rustc_hir::def_id::LOCAL_CRATE), p)
         } else {
@@ -696,23 +702,60 @@ impl<'tcx> Cx<'tcx> {
     }
 
     fn attrs_of(&self, did: LocalDefId) -> J {
-        let hir_id = self.tcx.local_def_id_to_hir_id(did);
+        // Derive-helper attributes (#[serde(skip)], #[strum(disabled)], ...) are read from the source text that
+        // precedes the item: from the end of the previous line that does not start with `#[`/`///` up to the item.
+        let sm = self.tcx.sess.source_map();
+        let sp = self.tcx.def_span(did);
         let mut v = Vec::new();
-        for a in self.tcx.hir_attrs(hir_id) {
-            // only the tool/helper attributes survive unparsed (serde, strum, derivative, arg, ...)
-            let txt = format!("{:?}", a);
-            if txt.contains("serde") || txt.contains("strum") || txt.contains("derivative") {
-                let sp = a.span();
-                let src = self
-                    .tcx
-                    .sess
-                    .source_map()
-                    .span_to_snippet(sp)
-                    .unwrap_or_else(|_| String::new());
-                v.push(s(src));
+        let lo = sm.lookup_char_pos(sp.lo());
+        let file = lo.file.clone();
+        let mut line = lo.line; // 1-based line of the item
+        // attributes on the same line before the item
+        if let Some(src) = file.get_line(line - 1) {
+            let prefix: String = src.chars().take(lo.col.0).collect();
+            collect_attrs(&prefix, &mut v);
+        }
+        // preceding attribute / doc lines
+        while line > 1 {
+            line -= 1;
+            let Some(src) = file.get_line(line - 1) else { break };
+            let t = src.trim();
+            if t.starts_with("#[") || t.starts_with("#![") {
+                collect_attrs(t, &mut v);
+            } else if t.starts_with("///") || t.starts_with("//") || t.is_empty() {
+                continue;
+            } else {
+                break;
             }
         }
         J::Arr(v)
+    }
+}
+
+fn collect_attrs(text: &str, out: &mut Vec<J>) {
+    let b: Vec<char> = text.chars().collect();
+    let mut i = 0;
+    while i + 1 < b.len() {
+        if b[i] == '#' && b[i + 1] == '[' {
+            let mut depth = 0i32;
+            let mut j = i + 1;
+            while j < b.len() {
+                if b[j] == '[' {
+                    depth += 1;
+                } else if b[j] == ']' {
+                    depth -= 1;
+                    if depth == 0 {
+                        break;
+                    }
+                }
+                j += 1;
+            }
+            let a: String = b[i..=j.min(b.len() - 1)].iter().collect();
+            out.push(J::Str(a));
+            i = j + 1;
+        } else {
+            i += 1;
+        }
     }
 }
 
